@@ -799,6 +799,10 @@ class Interp:
                     break
                 self.ops.loop_back(nxt, lid, info)
                 before = self.snapshot(head)
+                if self.ops.induction(head, nxt, lid, info):
+                    # a running offset `x = x + width(element)` got its closed form: this pass saw only the first iteration's value of
+                    # it; interpret the body again with the closed form instead of joining what this pass produced
+                    continue
                 self.join_env_into(head, nxt)
                 if self.snapshot(head) == before:
                     break
